@@ -1,5 +1,6 @@
 """C01: AEAD encryption == ASCON v1.2 for one-shot, incremental and masked C entry points
 and the C++ cipher classes (h_cpp sessions)."""
+from core import Cfg
 from props._gen import run_matrix, replay_generic, diverse_specs, wide_specs, with_args, H
 
 RULE = ('per family (3 one-shot, 3 incremental with random chunking/in-place, 3 masked with a random TRNG tape): the '
@@ -17,7 +18,8 @@ def harnesses():
 
 
 def run(ctx):
-    specs = wide_specs() if ctx.thorough else diverse_specs()
+    # quick: every backend once (diverse_specs) plus the share counts those five leave out on the portable C backends
+    specs = wide_specs() if ctx.thorough else diverse_specs() + [(Cfg('c64', (4, 2, 4)), 'rel'), (Cfg('c32', (3, 3, 3)), 'rel')]
     return run_matrix(ctx, harnesses(), specs, RULE, assumptions=ASSUME)
 
 
